@@ -91,9 +91,92 @@ PROPS = {
         "assumptions": ["PARTIAL: for ip*, dates, re, json, file, dir the accepted language is the standard library's; findings C05-datetime-fraction and C05-ipv4-mapped are where it differs from the documented one",
                         "Go's regexp engine agrees with the Brzozowski matcher on the repository's patterns (tested by every string case)"],
     },
+    "C06": {
+        "run": "Run.Run_C06",
+        "rule": "cases = abstract Go files (header, imports, 0..4 structs incl. grouped/generic/alias declarations, fields with/without literal and with "
+                "@tag / plain / no trailing comment in every interleaving, several annotated fields per struct and file, CJK in identifiers, comments "
+                "and values, keys that override / add / both / repeat, 1..3 keys per comment, values with $ \\ | ' ; , block and multi-line comments, "
+                "CRLF files, protoc-gen-go shaped files; frame: funcs, vars, consts, interfaces, local and non-first grouped type declarations with "
+                "annotated-looking fields) rendered to disk; file.ParseFile's areas are compared with the model's areas_of, and the bytes after one run "
+                "through the library, CLI -f, -d and -p with write_file (model) and render(inject_file f) (spec) inside Coq; plus byte-level cases "
+                "outside the abstract shape (irregular literals, duplicate keys, two comments, finding regions, random tag soup). The driver also "
+                "re-parses every output (same declarations/field types) and looks every key up with reflect.StructTag. A case is distinct by its cell = "
+                "(structs, visited fields, annotated fields, overrides, additions, repeats (capped), CJK, CRLF, block comment, grouped).",
+        "trusted": ["translator: rTags / rInject / rComment (regexp/syntax tree -> Gallina), compared with the reference trees by C06_regex_ref",
+                    "correspondence: Go driver c06.go + c06gen.go (generator, renderer and Gallina printer of the abstract file), Run/Run_C06.v, bin/check"],
+        "assumptions": ["PARTIAL: go/parser is not modelled; the model starts from the field spans / tag literal / comment texts it returns "
+                        "(fields_from), checked against file.ParseFile on every generated file",
+                        "Go's regexp engine agrees with the byte-wise scanners written for the three expressions (tested by every case; a changed "
+                        "expression breaks C06_regex_ref)",
+                        "domain: conventional key:\"value\" items (value non-empty, no double quote, no line break), distinct keys per literal and per "
+                        "comment, non-empty back-quoted literal that is the last back-quoted text on its line, one trailing comment per field; "
+                        "outside it see the listed findings"],
+    },
+    "C07": {
+        "run": "Run.Run_C06",
+        "rule": "the C06 generator x 2..5 consecutive runs on the same file, each run through a randomly chosen entry point (library, CLI -f, -d with and "
+                "without trailing slash, -p with *.go / * / ./*.go), with a sibling file processed along; before every run file.ParseFile's areas are "
+                "recorded; Coq replays every run with write_file from the previous bytes (model), requires the areas of run >= 2 to be areas_of "
+                "(inject_file f), and requires the bytes after EVERY run to equal render(inject_file f) (spec: idempotence; files without annotation "
+                "stay byte-identical). distinct cell = (number of runs, sequence of entry points, C06 cell).",
+        "trusted": ["correspondence: Go driver c06.go + c06gen.go, Run/Run_C06.v, bin/check"],
+        "assumptions": ["PARTIAL: go/parser is not modelled (the parse of the tool's own output is taken to be the abstract file after injection; "
+                        "checked on every run >= 2)", "domain as for C06"],
+    },
+    "C19": {
+        "run": "Run.Run_C19",
+        "rule": "directory trees mixing valid annotated and un-annotated files of C06's shape, valid Go the tool does not expect (fields without tag "
+                "literal, malformed @tag text, grouped / local / generic declarations, two comments), broken .go files (truncated, unbalanced, invalid "
+                "UTF-8, NUL, empty, not Go), non-Go files with Go content, names with blanks / CJK / brackets / '.go' alone / upper-case suffix, "
+                "sub-directories (one named *.go); one CLI run per tree with -d (with/without slash), -p (*.go, *, *.pb.go, */*.go, class, no match) or "
+                "-f (file, directory, missing path). Exit status / panic output and changed non-Go or unparsable files are reported by the driver; the "
+                "bytes of every file before/after are compared in Coq with handle_dir / handle_pattern / handle_file under the recorded ParseFile "
+                "oracle (model) and with the specification (non-.go, not asked, unparsable => identical; valid C06 files => render(inject_file f)). "
+                "distinct cell = (mode and argument class, kinds of files (capped), sub-directories, changed files).",
+        "trusted": ["correspondence: Go driver c06.go + c06gen.go, Run/Run_C19.v, bin/check"],
+        "assumptions": ["PARTIAL: go/parser is an oracle (file.ParseFile's result per file is recorded before the run)",
+                        "PARTIAL: the real file system is a finite map path -> bytes; os.ReadDir / filepath.Glob results are inputs; permissions, "
+                        "symlinks and concurrent modification are outside the model"],
+    },
 }
 
 LEVELS = {
+    "C06": {
+        "text": "Theorems in Coq about an executable model of newTagItems / override / format / injectTag / WriteFile and the area loop of ParseFile: the "
+                "merge loop meets the four clauses of the property and is the only list that does (C06_merge, C06_merge_unique); the tag scanner reads "
+                "back every conventional literal (C06_scan_format); for every abstract file - any number and interleaving of raw text and fields - the "
+                "areas applied from the last to the first write exactly the file whose annotated fields carry the merge and whose other bytes are "
+                "unchanged (C06_splice_frame); the scanners are written for the regex trees regenerated from parse.go (C06_regex_ref). The model is tied "
+                "to the code by comparing areas and output bytes of generated files, through the library and the CLI, inside Coq.",
+        "design_ref": "DESIGN.md section 5, C06",
+        "note": "PARTIAL: go/parser is not modelled (the model starts from the spans it returns, checked against file.ParseFile on every generated file). "
+                "Trusted: Coq kernel + vm_compute; translator (three regexes); correspondence harness. Findings outside the theorem's domain: literal "
+                "empty / interpreted / multi-line is never rewritten; a back quote earlier on the literal's line overwrites the field type; a back quote "
+                "in an injected value breaks the output (C06_empty_literal_refuted, C06_backquote_in_type_refuted).",
+        "technique": "Coq proof (induction over the abstract file with a byte prefix invariant; association-list reasoning for the merge) + "
+                     "program-generating model-vs-implementation correspondence evaluated in Coq",
+    },
+    "C07": {
+        "text": "Theorems in Coq: override is idempotent under distinct keys, inject_file is idempotent and the domain is closed under it, a run on an "
+                "already processed file writes the bytes it found, a file without areas is written back unchanged, the n-th run for every n >= 1 writes "
+                "the bytes of the first, and a second -d / -p run over files that each settle changes nothing. Tied to the code by 2..5 repeated runs "
+                "mixing library / -f / -d / -p on generated files, replayed in Coq.",
+        "design_ref": "DESIGN.md section 5, C07",
+        "note": "PARTIAL: go/parser is not modelled; re-parsing the tool's output is represented by the abstract file after injection (checked on every "
+                "repeated run). Same domain and findings as C06.",
+        "technique": "Coq proof (corollaries of the C06 frame theorem and merge idempotence) + repeated-run correspondence evaluated in Coq",
+    },
+    "C19": {
+        "text": "Theorems in Coq about handleFile / handleDir / handlePatternFiles over a finite map path -> bytes with ParseFile as an oracle: a name "
+                "without .go, a missing path and an unparsable file leave everything untouched; collecting areas never panics on any abstract AST "
+                "(fields without tag literal, comments that only mention @tag, grouped declarations) - with the pre-repair loop panicking on the D22 "
+                "witness; a run over distinct names is the map-wise application of a per-file step to the original contents, in any order, and only a "
+                "panic can end it early; a valid C06 file is still processed whatever surrounds it. Tied to the code by CLI runs over generated trees.",
+        "design_ref": "DESIGN.md section 5, C19",
+        "note": "PARTIAL: go/parser is an oracle and the file system is a finite map (permissions, symlinks, I/O errors are not modelled); process "
+                "exit status and panics are observed by the driver only.",
+        "technique": "Coq proof (induction over the list of names with a locality lemma per file) + CLI-over-directory-tree correspondence evaluated in Coq",
+    },
     "C05": {
         "text": "Theorems in Coq: the five regular expressions of the repository (regenerated from the source on every run) accept exactly the languages of "
                 "hand-written recognisers, for every string (e-mail included: words separated by single separators, one '@', a '.' in the domain); the "
